@@ -145,6 +145,53 @@ def runCase (case : String) : String :=
     (w', s!"{r}|{showEnvs w'}" :: acc.2)) (initWorld, [])
   " / ".intercalate outs.reverse
 
+/-! foreign-value stream `fx:<x>:<site>:<consumer>:<via>`: the model predicts, for each of the 14
+variants of the harness, whether the consuming render accepts the exported value.  Threads: 0 =
+main, 1 = exporting thread, 2.. = consumer threads; every render creates (at least) one state. -/
+
+/-- exporter 6 exports a `loop` object (not bound to a state); all others export macros (directly,
+    in a namespace, as `caller`, or inside a module object) -/
+def exportBound (x : Nat) : Bool := x != 6
+
+def consumerCalls (c : String) : Bool := c != "info"
+
+def preRenders (s : IdSys) (t k : Nat) : IdSys := s.run (List.replicate k t)
+
+/-- create the consuming state on thread `t` after `k` other renders there; returns the class -/
+def consume (s : IdSys) (t k : Nat) (exportId : Nat) (bound calls : Bool) : IdSys × String :=
+  let s := preRenders s t k
+  let id := s.next
+  let s := s.newState t
+  (s, if bound && calls then (if macroAccepted id exportId then "accepted" else "rejected") else "free")
+
+def runForeign (case : String) : String :=
+  let f := case.splitOn ":"
+  let x := ((f[1]?).bind String.toNat?).getD 0
+  let site := (f[2]?).getD "M"
+  let cons := (f[3]?).getD "same"
+  let bound := exportBound x
+  let calls := consumerCalls cons
+  -- the main thread has rendered before (any number; 5 here)
+  let s := preRenders IdSys.init 0 5
+  let (s, exportId, onThread) :=
+    match site.toNat? with
+    | none => let id := s.next; (s.newState 0, id, false)
+    | some j => let s := preRenders s 1 j; let id := s.next; (s.newState 1, id, true)
+  let kk := (site.toNat?).getD 0
+  -- the exporting thread renders once more right after the export
+  let (s, sameThread) := if onThread then consume s 1 0 exportId bound calls else (s, "-")
+  let (s, vMain) := consume s 0 0 exportId bound calls
+  let (s, news) := (List.range 4).foldl (fun (acc : IdSys × List String) k =>
+    let (s', r) := consume acc.1 (2 + k) k exportId bound calls
+    (s', acc.2 ++ [r])) (s, [])
+  let (s, conc0) := (List.range 4).foldl (fun (acc : IdSys × List String) i =>
+    let (s', r) := consume acc.1 (10 + i) 0 exportId bound calls
+    (s', acc.2 ++ [r])) (s, [])
+  let (_, concK) := (List.range 4).foldl (fun (acc : IdSys × List String) i =>
+    let (s', r) := consume acc.1 (20 + i) kk exportId bound calls
+    (s', acc.2 ++ [r])) (s, [])
+  " / ".intercalate ([vMain] ++ news ++ [sameThread] ++ conc0 ++ concK)
+
 end C15Drive
 
 partial def loop (h : IO.FS.Stream) (out : IO.FS.Stream) : IO Unit := do
@@ -152,7 +199,10 @@ partial def loop (h : IO.FS.Stream) (out : IO.FS.Stream) : IO Unit := do
   if line.isEmpty then return ()
   let line := (line.dropEndWhile (· == '\n')).toString
   let case := (line.splitOn "\t").head!
-  out.putStrLn s!"{case}\t{C15Drive.runCase case}"
+  if case.startsWith "fx:" then
+    out.putStrLn s!"{case}\t{C15Drive.runForeign case}"
+  else
+    out.putStrLn s!"{case}\t{C15Drive.runCase case}"
   loop h out
 
 def main : IO Unit := do
